@@ -126,6 +126,11 @@ def check_tap(name, acfg, hist, stages, out, cov):
             ok = True
         elif st == "FAILED" and prev not in ("SUCCEEDED",):
             ok = True
+        elif st == "FAILED" and prev == "SUCCEEDED" and [h.response.status for tt, h in acts if tt < t][-1:] not in ([], ["success"]):
+            # the chain was concluded when its last action was ISSUED; that action's refusal is only known at the agent's next turn, which then
+            # (repeat_kill_chain_stages off) marks the attempt failed - a correction, not a stage skipped or taken out of order
+            ok = True
+            cov.inc("tap_conclusions_corrected_after_last_action_failed")
         elif st == "SUCCEEDED" and prev == order[-1]:
             ok = True
         elif st == "NOT_STARTED" and prev in ("SUCCEEDED", "FAILED") and repeat:
